@@ -288,23 +288,26 @@ def has_same_group_overlap(tes):
 
 
 def write_pair(case, gene_path, te_path, cfg_path=None):
-    """case may carry drop_gene_cols / drop_te_cols (lists of column names to omit)"""
+    """case may carry drop_gene_cols / drop_te_cols (lists of column names to omit), rename_gene_cols / rename_te_cols ({name: other
+    name}: the data stay, under a header the pipeline does not know) and extra_gene_cols / extra_te_cols (names of additional columns)"""
     gcols = ["Gene_Name", "Chromosome", "Feature", "Start", "Stop", "Strand", "Length"]
     tcols = ["Chromosome", "Start", "Stop", "Strand", "Order", "SuperFamily", "Length"]
     gcols = [c for c in gcols if c not in case.get("drop_gene_cols", [])]
     tcols = [c for c in tcols if c not in case.get("drop_te_cols", [])]
+    gren, tren = case.get("rename_gene_cols", {}), case.get("rename_te_cols", {})
+    gext, text_ = list(case.get("extra_gene_cols", [])), list(case.get("extra_te_cols", []))
     with open(gene_path, "w") as f:
-        f.write("\t".join(gcols) + "\n")
-        for g in case["genes"]:
+        f.write("\t".join([gren.get(c, c) for c in gcols] + gext) + "\n")
+        for i, g in enumerate(case["genes"]):
             row = {"Gene_Name": g["name"], "Chromosome": g["chrom"], "Feature": "gene", "Start": "%d" % g["start"], "Stop": "%d" % g["stop"],
                    "Strand": g["strand"], "Length": "%d" % g.get("length", g["stop"] - g["start"] + 1)}
-            f.write("\t".join(row[c] for c in gcols) + "\n")
+            f.write("\t".join([row[c] for c in gcols] + ["note_%d" % i for _ in gext]) + "\n")
     with open(te_path, "w") as f:
-        f.write("\t".join(tcols) + "\n")
-        for t in case["tes"]:
+        f.write("\t".join([tren.get(c, c) for c in tcols] + text_) + "\n")
+        for i, t in enumerate(case["tes"]):
             row = {"Chromosome": t["chrom"], "Start": "%d" % t["start"], "Stop": "%d" % t["stop"], "Strand": t.get("strand", "+"),
                    "Order": t["order"], "SuperFamily": t["superfam"], "Length": "%d" % (t["stop"] - t["start"] + 1)}
-            f.write("\t".join(row[c] for c in tcols) + "\n")
+            f.write("\t".join([row[c] for c in tcols] + ["note_%d" % i for _ in text_]) + "\n")
     if cfg_path:
         first, delta, last = case["windows"]
         with open(cfg_path, "w") as f:
